@@ -10,7 +10,7 @@ import (
 func init() {
 	register(&propDef{
 		ID:          "C17",
-		Explanation: "Decides, for the language server's document copy (cmd/templ/lspcmd/proxy): R1 in DidChange the call that applies the content changes dominates parsing, generation, the source-map cache update and the forwarded DidChange, and the text parsed is the String() of the document that Apply returned; in DidOpen the document is stored before parsing; R2 in Document.Apply the range is normalised before any classification predicate or line index is evaluated, and the normaliser clamps a position past the last line to the END of the last line (the branch that clamps a line coordinate also sets that position's character); R3 the three edit predicates (insert / delete / overwrite), evaluated exhaustively over the truth assignments of their atoms {end line = start line, end column = start column, text empty}, are pairwise disjoint and cover every state except (empty range, empty text); R4 every satisfying assignment of the whole-document predicate constrains the end line AND the end column of the range (a range whose end line is unconstrained cannot be known to cover the document), besides requiring start 0:0; R5 the document store applies changes under its mutex. NOT decided: the splice arithmetic of Insert/Delete/Overwrite on concrete texts, UTF-16 column units.",
+		Explanation: "Decides, for the language server's document copy (cmd/templ/lspcmd/proxy): R1 in DidChange the call that applies the content changes dominates parsing, generation, the source-map cache update and the forwarded DidChange, and the text parsed is the String() of the document that Apply returned; in DidOpen the document is stored before parsing; R2 in Document.Apply the range is normalised before any classification predicate or line index is evaluated, and the normaliser clamps a position past the last line to the END of the last line (the branch that clamps a line coordinate also sets that position's character); R3 the three edit predicates (insert / delete / overwrite), evaluated exhaustively over the truth assignments of their atoms {end line = start line, end column = start column, text empty}, are pairwise disjoint and cover every state except (empty range, empty text); R4 every satisfying assignment of the whole-document predicate constrains the end line AND the end column of the range (a range whose end line is unconstrained cannot be known to cover the document), besides requiring start 0:0; R5 the document store applies changes under its mutex. R6 a field of Document that memoises a value computed from the text (returned when non-nil, filled otherwise) is reset in every method that writes the fields it was computed from (none exists on the pinned tree; a positive control keeps the detector live). NOT decided: the splice arithmetic of Insert/Delete/Overwrite on concrete texts, UTF-16 column units.",
 		Assumptions: []string{"atoms of the predicates are independent comparisons (truth table over uninterpreted atoms)"},
 		Trusted:     []string{"go/types", "x/tools go/packages, go/cfg"},
 		Run:         runC17,
@@ -19,6 +19,7 @@ func init() {
 
 func runC17(c *Ctx) {
 	c.load("./cmd/templ/lspcmd/proxy")
+	memoInvalidation(c, "C17.R6", "cmd/templ/lspcmd/proxy", "Document")
 	p := c.pkg("cmd/templ/lspcmd/proxy")
 	info := p.TypesInfo
 
@@ -207,6 +208,25 @@ func runC17(c *Ctx) {
 			nclamp++
 			c.check(setsChar, "C17.R2", funcKey(p, fd)+"|line-clamp-sets-column:"+pos, c.pos(is.Pos()), "a position past the last line becomes the end of the last line",
 				fmt.Sprintf("%s clamps %s.Line to the last line but leaves %s.Character as sent: a position beyond the document end (e.g. line = lineCount, character 0) lands at the START of the last line instead of the end of the document", fd.Name.Name, pos, pos))
+			return true
+		})
+		// the unconditional form: <pos>.Line = min(<pos>.Line, <last line>) clamps the line and cannot set the column
+		ast.Inspect(fd.Body, func(n ast.Node) bool {
+			as, ok := n.(*ast.AssignStmt)
+			if !ok || len(as.Lhs) != 1 || len(as.Rhs) != 1 || !strings.HasSuffix(types.ExprString(as.Lhs[0]), ".Line") {
+				return true
+			}
+			call, ok := as.Rhs[0].(*ast.CallExpr)
+			if !ok {
+				return true
+			}
+			if id, ok := call.Fun.(*ast.Ident); !ok || id.Name != "min" {
+				return true
+			}
+			pos := strings.TrimSuffix(types.ExprString(as.Lhs[0]), ".Line")
+			nclamp++
+			c.viol("C17.R2", funcKey(p, fd)+"|line-clamp-sets-column:"+pos, c.pos(as.Pos()),
+				fmt.Sprintf("%s clamps %s.Line with min(…) and therefore cannot tell a line that was past the end from the last line itself: %s.Character stays as sent, so a position beyond the document end (e.g. line = lineCount, character 0, which editors and templ's own formatting edit send) lands at the START of the last line instead of the end of the document", fd.Name.Name, pos, pos))
 			return true
 		})
 		if nclamp < 2 {
